@@ -157,3 +157,34 @@ Theorem C12_fixed_rejects_witnesses :
   exists s, run true (init sc 4 4) ls = Some s /\ map a_item (skipn 1 (g_hist (st_g s))) = [IErr C_INVALID_PAYLOAD].
 Proof. exact fixed_rejects_witnesses. Qed.
 Print Assumptions C12_fixed_rejects_witnesses.
+
+(* buffers handed back through send_back: whatever length the returned buffer has (shorter, equal
+   or longer than the current maximum_payload_size, e.g. kept from a run with another payload
+   geometry), the loop goes on with a buffer of exactly maximum_payload_size bytes ... *)
+Theorem C12_returned_buffers_resized : forall sc cp cb ls s p bq',
+  script_ok sc -> run true (init sc cp cb) ls = Some s ->
+  st_pos s = LBuf -> st_bq s = p :: bq' ->
+  exists s' b, step true s (LBackRecv 0) = Some s' /\ st_pos s' = LNew b /\
+    zlen b = max_payload (st_prm s') /\ st_prm s' = st_prm s /\ bytes_ok b.
+Proof. exact returned_buffers_resized. Qed.
+Print Assumptions C12_returned_buffers_resized.
+
+Theorem C12_resize_any_length : forall n b, 0 <= n -> zlen (resize n b) = n.
+Proof. exact resize_any_length. Qed.
+Print Assumptions C12_resize_any_length.
+
+(* ... and every slice the loop hands to submit lies inside its buffer: the model's submit steps
+   are only enabled when the slice is in range (slicing past the end of a Vec panics before
+   anything is submitted), and in every reachable state it is, in particular
+   payload_buf[cursor .. cursor + size] for every payload transfer *)
+Theorem C12_submitted_slices_inside : forall sc cp cb ls s buf k,
+  script_ok sc -> run true (init sc cp cb) ls = Some s ->
+  st_pos s = LSubmit buf k ->
+  zlen buf = max_payload (st_prm s) /\
+  exists sz, nth_error (slots (st_prm s)) k = Some sz /\
+    slice_in (st_prm s) (st_lbuf s) (st_tbuf s) buf k sz = true /\
+    ((0 < k)%nat -> S k <> nslots (st_prm s) ->
+     0 <= zsum (firstn (k - 1) (psizes (st_prm s))) /\
+     zsum (firstn (k - 1) (psizes (st_prm s))) + sz <= zlen buf).
+Proof. exact submitted_slices_inside. Qed.
+Print Assumptions C12_submitted_slices_inside.
